@@ -74,8 +74,13 @@ def make_checkpoint(ctx, W, prob, params):
         prob.g.table.append((p, g))
     hi = W.sp.optimize.LbfgsInvHessProduct(np.array(sk).reshape(m, n) if m else np.zeros((0, n)),
                                            np.array(yk).reshape(m, n) if m else np.zeros((0, n)))
-    ck = W.sp.optimize.OptimizeResult(fun=fun, jac=np.array(jac), nfev=nfev0, njev=njev0, nit=nit0, status=1,
-                                      message=MESSAGES["ITER"], x=x, success=True, hess_inv=hi)
+    if params.get("ck_abnormal"):
+        # the earlier run ended on an abnormal line-search termination (success False): still a valid checkpoint
+        ck = W.sp.optimize.OptimizeResult(fun=fun, jac=np.array(jac), nfev=nfev0, njev=njev0, nit=nit0, status=2,
+                                          message=MESSAGES["ABNORMAL"], x=x, success=False, hess_inv=hi)
+    else:
+        ck = W.sp.optimize.OptimizeResult(fun=fun, jac=np.array(jac), nfev=nfev0, njev=njev0, nit=nit0, status=1,
+                                          message=MESSAGES["ITER"], x=x, success=True, hess_inv=hi)
     return ck, dict(points=pts, grads=grads, fun=fun, jac=jac, nit=nit0, nfev=nfev0, njev=njev0)
 
 
@@ -165,6 +170,7 @@ def _path(ctx, params):
         # the way a user restarts: x0 is the very array of the result it restarts from
         cfg["x0"] = ck["x"]
         ck_before = orch.snapshot_state(ck)
+        ck_report = dict(message=ck.get("message"), success=ck.get("success"), status=ck.get("status"))
     if params.get("x0_dtype") == "float32" and "x0" not in cfg:
         # a single-precision start vector (feasible; its entries are taken to be representable)
         a = prob.x0_array()
@@ -218,9 +224,13 @@ def _path(ctx, params):
         if params.get("gtol_kind") == "callable":
             ctx.check("C04.gtol_called_once", run.gtol_calls != 1, info=dict(info, calls=run.gtol_calls))
     # ------------------------------------------------------------------ C05
-    if "C05" in groups and ck_info is not None and not early_return_ck:
-        # a chain of restarts: the result the run was started from still describes its own point afterwards
+    if ("C05" in groups or "C04" in groups) and ck_info is not None:
+        # a chain of restarts: the result the run was started from still describes its own point afterwards (its
+        # termination report included: it is the report of the EARLIER run)
         v, struct = orch.diff_snap(ck_before, orch.snapshot_state(cfg["checkpoint"]), fields=("x", "fun", "jac", "nfev", "njev", "nit", "sk", "yk"))
+        ckn = cfg["checkpoint"]
+        if ckn.get("message") != ck_report["message"] or ckn.get("success") != ck_report["success"] or ckn.get("status") != ck_report["status"]:
+            v, struct = True, list(struct) + ["termination report of the checkpoint changed: %r -> %r" % (ck_report, dict(message=ckn.get("message"), success=ckn.get("success"), status=ckn.get("status")))]
         ctx.check("C05.earlier_result_of_the_chain_untouched", v, info=dict(info, structural=struct))
     if "C05" in groups:
         any_grad = (len(run.gcalls) > 0 or ck_info is not None) if callable_grad else (len(run.fd_calls) > 0 or ck_info is not None)
